@@ -64,6 +64,12 @@ def stack_phase():
         fn = f.f_code.co_filename
         if "/iOpt/output_system/" in fn or fn.endswith("/iOpt/method/listener.py"):
             return "p"
+        # a local refinement that does not enter through Process.DoLocalRefinement (a refactoring may route Solve's refinement through
+        # a private helper): the call comes out of scipy.optimize, or out of a library function whose name says it refines
+        if "/scipy/optimize/" in fn:
+            return "l"
+        if "/iOpt/" in fn and ("localrefine" in f.f_code.co_name.lower() or "refin" in f.f_code.co_name.lower()):
+            return "l"
         f = f.f_back
         n += 1
     return "g"
@@ -110,7 +116,9 @@ class RecordingProblem(Problem):
         self.log.append(ent)
         if ph == "g":
             self.ng += 1
-        elif ph == "l" and LOCAL_CALLS:
+        elif ph == "l":
+            if not LOCAL_CALLS:
+                LOCAL_CALLS.append(0)
             LOCAL_CALLS[-1] += 1
         if self.cap is not None and ph == "g" and self.ng > self.cap:
             self.budget_violation = True
@@ -170,7 +178,9 @@ class ProxyProblem(Problem):
         self.log.append(ent)
         if ph == "g":
             self.ng += 1
-        elif ph == "l" and LOCAL_CALLS:
+        elif ph == "l":
+            if not LOCAL_CALLS:
+                LOCAL_CALLS.append(0)
             LOCAL_CALLS[-1] += 1
         if self.cap is not None and ph == "g" and self.ng > self.cap:
             self.budget_violation = True
